@@ -819,7 +819,7 @@ func (e *RaceEngine) partitionTypes(r *Role) map[string]bool {
 			add(ft, d+1)
 		}
 	}
-	for _, a := range r.Go.Call.Args {
+	for _, a := range effectiveGoArgs(r.Go) {
 		if !e.perInstanceArg(r, a) {
 			if _, isPtr := a.Type().(*types.Pointer); isPtr {
 				e.Notes = append(e.Notes, fmt.Sprintf("go statement of %s: argument %s is not a per-iteration element or fresh object: treated as shared by all instances", r.ID, a.Name()))
@@ -2068,6 +2068,12 @@ func (e *RaceEngine) afterRunBarrier(a RAccess) bool {
 			if name == "RunDoneWait" && InstrDominates(in, at) {
 				ok = true
 			}
+			// the barrier written out: Wait on the run-done WaitGroup field itself
+			if IsCallTo(in, "(*sync.WaitGroup).Wait") && len(cc.Args) > 0 && InstrDominates(in, at) {
+				if _, f, _, okf := FieldOf(cc.Args[0]); okf && f == "runDone" {
+					ok = true
+				}
+			}
 		})
 		return ok
 	}
@@ -2650,4 +2656,71 @@ func (e *RaceEngine) Conflicts(ordered func(a, b RAccess) string) []Conflict {
 		}
 	}
 	return out
+}
+
+// effectiveGoArgs: what a go statement hands to the goroutine: its arguments; the receiver bound
+// into a method value passed as an argument; and, for a closure, the values of the per-iteration
+// variables it captures (a variable declared in the loop body, assigned once before the go
+// statement and only read by the closure, is a fresh cell per iteration holding that value).
+func effectiveGoArgs(g *ssa.Go) []ssa.Value {
+	var out []ssa.Value
+	boundRecv := func(v ssa.Value) ssa.Value {
+		if mc, ok := v.(*ssa.MakeClosure); ok {
+			if fn, ok := mc.Fn.(*ssa.Function); ok && strings.HasSuffix(fn.Name(), "$bound") && len(mc.Bindings) == 1 {
+				return mc.Bindings[0]
+			}
+		}
+		return nil
+	}
+	for _, a := range g.Call.Args {
+		if rv := boundRecv(a); rv != nil {
+			out = append(out, rv)
+			continue
+		}
+		out = append(out, a)
+	}
+	if mc, ok := g.Call.Value.(*ssa.MakeClosure); ok {
+		if rv := boundRecv(mc); rv != nil {
+			out = append(out, rv)
+			return out
+		}
+		for _, b := range mc.Bindings {
+			a, isCell := b.(*ssa.Alloc)
+			if !isCell {
+				out = append(out, b)
+				continue
+			}
+			// one store, before the go statement, in the same loop iteration; otherwise only reads
+			var st *ssa.Store
+			ok := true
+			for _, ref := range *a.Referrers() {
+				switch x := ref.(type) {
+				case *ssa.Store:
+					if x.Addr != ssa.Value(a) || st != nil {
+						ok = false
+					}
+					st = x
+				case *ssa.UnOp, *ssa.DebugRef:
+				case *ssa.MakeClosure:
+					if x != mc {
+						ok = false
+					}
+				default:
+					ok = false
+				}
+			}
+			if ok && st != nil && InstrDominates(a, st) && InstrDominates(st, g) && sameIteration(a, g) {
+				out = append(out, st.Val)
+			}
+		}
+	}
+	return out
+}
+
+// sameIteration: the allocation is redone on every way round to the go statement (no loop
+// contains the go statement without containing the allocation).
+func sameIteration(a *ssa.Alloc, g ssa.Instruction) bool {
+	// every cycle through g's block passes a's block: g cannot reach itself avoiding a
+	back := ReachAvoiding(g.Parent(), g, func(in ssa.Instruction) bool { return in == ssa.Instruction(a) }, func(in ssa.Instruction) bool { return in == g })
+	return len(back) == 0
 }
